@@ -7,10 +7,28 @@ import re
 V = os.path.dirname(os.path.dirname(os.path.abspath(__file__)))
 
 COMMON_NOTE = ("trusted: Coq 8.16.1 kernel (vm_compute, no native_compute, no axioms: every theorem prints "
-               "'Closed under the global context'); translator/rs2v.py + Intrinsics.v for the translated tables/kernels; "
-               "the hand-written model of lib.rs/iter.rs/macros.rs is tied to the code by the correspondence check only "
-               "(differential testing, bounds in the evidence); extraction via ExtrOcamlBasic only; OCaml driver; Rust harness; "
-               "core::str::from_utf8 modelled by utf8_valid. See DESIGN.md section 10.")
+               "'Closed under the global context'); the translator (translator/rs2v.py, rsparse.py, lib2v.py: Rust-subset parser, "
+               "macro_rules expander, statement-level translation of lib.rs into the monad of Imp.v, overflow guards per inferred "
+               "integer width, pinned token texts of wrappers / drop guard / swar.rs loop shells) + Intrinsics.v for the translated "
+               "tables/kernels; the hand-written glue ImpLib.v / ImpGlue.v (next_opt, from_utf8, rposition, slice prefix, the "
+               "in/out header-slice parameter with its drop guard); Cursor.v (iter.rs) and the scanner loop shells of Scan.v are "
+               "hand-written and tied by the correspondence check (differential testing, bounds in the evidence); extraction via "
+               "ExtrOcamlBasic only; OCaml driver; Rust harness; core::str::from_utf8 modelled by utf8_valid. See DESIGN.md section 10.")
+
+SRC_TIE = {
+    "C01": "request/response/parse_headers/chunk", "C02": "request/response/parse_headers/chunk",
+    "C03": "request/response/parse_headers/chunk", "C11": "request/response/parse_headers/chunk",
+    "C04": "request/response", "C05": "request/response", "C06": "request", "C07": "response",
+    "C08": "request/response/parse_headers", "C09": "chunk", "C10": "request/response", "C13": "request/response",
+    "C14": "request/response", "C15": "request/response", "C16": "request/response/parse_headers",
+    "C17": "request/response", "C18": "request/response",
+}
+SRC_TEXT = (" Tie to the source: theorem source_tie (same file) -- the %s entry points built on the functions TRANSLATED from "
+            "/repo/src/lib.rs + macros.rs on this run (Generated/Lib.v, LibApi.v; macros expanded from their definitions; one "
+            "overflow/underflow/index guard per arithmetic or slicing operation) compute exactly what the model computes "
+            "(Proofs/Tie*.v, Src*.v), for every environment whose scanners only move forward (all concrete backends: "
+            "BackendsFwd.v); so the theorems hold of the translated source, and a change to lib.rs that alters behaviour breaks "
+            "the tie proof (or the translation) as well as the correspondence.")
 
 P = {
     "C01": ("proof",
@@ -142,6 +160,9 @@ def main():
         has_thm = os.path.exists(os.path.join(V, "coq", "Thm", pid + ".v"))
         if cat == "proof" and not has_thm:
             cat, text, tech = DEFAULT
+        elif pid in SRC_TIE:
+            text = text + SRC_TEXT % SRC_TIE[pid]
+            tech = tech + "; model tied to lib.rs by translation + equality proofs"
         checks.append({
             "property_id": pid,
             "quick_cmd": "./check %s --tier quick" % pid,
@@ -165,8 +186,10 @@ def main():
             "add_only": True,
         },
         "engines": [{"name": "coq-model", "path": "/verif/coq", "serves_properties": [p["id"] for p in props],
-                     "kind_free_text": "Rocq/Coq 8.16.1 development: hand-written code-shaped model, translated kernels/tables, "
-                                       "reference parsers, theorems; tied to /repo by translation + correspondence"}],
+                     "kind_free_text": "Rocq/Coq 8.16.1 development: code-shaped model, reference parsers, theorems; lib.rs control flow, "
+                                       "macros, class tables, SIMD/SWAR kernels, cfg lattice, names and signatures re-translated from "
+                                       "/repo on every run and proved equal to / consistent with the model; correspondence check "
+                                       "(extracted model vs real crate) on every run"}],
         "checks": checks,
         "not_applicable": [],
         "notes": "fix commit in /repo: ae98cb4 (C09 zero-digit chunk-size line); see known_findings.json",
